@@ -31,6 +31,7 @@ def parseOp (w : List String) : Option Op :=
   | ["addProps", v, cl] => do let cl ← parseClosure cl; pure (.addProps v cl)
   | ["addEvent", v, n, p] => do let n ← strOfHex n; let p ← parseOptProps p; pure (.addEvent v n p)
   | ["pushChild", v, x] => some (.pushChild v x)
+  | ["dropLocalSpans", x] => some (.dropLocalSpans x)
   | ["elapsed", v] => some (.elapsed v)
   | ["cancel", v] => some (.cancel v)
   | ["drop", v] => some (.drop v)
@@ -156,7 +157,7 @@ def seqStep (st : SeqState) (line : String) : SeqState × String :=
     match t.toNat? with
     | some t =>
       let (sys, obs) := exec st.sys t (.pushChild v x)
-      ({ st with sys := (match obs with | .ok => { sys with lspans := assocDel sys.lspans x } | _ => sys) }, showObs st.nthreads obs)
+      ({ st with sys := (match obs with | .ok => (exec sys t (.dropLocalSpans x)).1 | _ => sys) }, showObs st.nthreads obs)
     | none => (st, "bad-op parse")
   -- a caught panic unwinds through the local spans above the innermost scope: they are dropped newest first, as by `close`
   | [t, "unwindLocals"] =>
